@@ -151,6 +151,12 @@ def model_env(r, sig, case):
             v = list(a.values())[0]
             env[cv] = ord(v) if isinstance(v, str) else int(v)
     env[('opaque', 'PyFunction_Check')] = False
+    if r['name'] == 'larfx':
+        # number_from_pyobject(tau, ., MAT_ID(v)): fails for an integer v (no INT case) and for a complex tau with a real v
+        tv = case['args'].get('tau', {}); vv = case['args'].get('v', {})
+        vtc = vv['mat'][0] if 'mat' in vv else None
+        isc = isinstance(tv.get('num'), list)
+        env[('opaque', 'number_from_pyobject')] = ('num' not in tv) or vtc == 'i' or (vtc == 'd' and isc)
     return env
 
 def line_of(r, env):
